@@ -51,6 +51,9 @@ def cases(draw, tier="quick"):
     c["pre_tmp"] = draw(st.sampled_from([False, False, True]))
     c["size"] = draw(st.sampled_from([0, 1, 100, 5000]))
     c["lie"] = draw(st.sampled_from([0, 0, 0, -1, 7]))
+    # file offers: another process creates a DIRECTORY named like the destination while the data is arriving
+    # (after every existence check the receiver made, before its final rename)
+    c["race_dir"] = draw(st.integers(0, 5)) == 0
     if c["kind"] == "directory":
         member = st.one_of(st.sampled_from(BENIGN), st.sampled_from(HOSTILE),
                            st.sampled_from(["sub/inner.txt", "sub/", "sub", "a/b/c", "a", "a/b", "dir1/", "x.tmp", "%SIBLING%", "%SIBLING%"]))
@@ -141,6 +144,12 @@ class FakePipe:
     def writeToFile(self, f, expected, progress=None, hasher=None):
         d = self.data[:expected] if expected is not None else self.data
         f.write(d)
+        if getattr(self, "race_path", None):
+            try:
+                os.mkdir(self.race_path)
+                self.raced = True
+            except OSError:
+                pass
         if hasher:
             hasher(d)
         if progress:
@@ -361,6 +370,8 @@ def _run(c, res, base, cmd_receive):
     w = FakeWormhole([_json.dumps({"transit": {"abilities-v1": [{"type": "direct-tcp-v1"}], "hints-v1": []}}).encode(),
                       _json.dumps({"offer": offer}).encode()])
     pipe = FakePipe(data)
+    if c.get("race_dir") and c["kind"] == "file" and not os.path.lexists(dest):
+        pipe.race_path = dest
     outcome = []
     answers = [c["answer"]]
     with mock.patch("builtins.input", lambda prompt="": answers[0]), \
